@@ -2,6 +2,7 @@
 import itertools
 
 import numpy as np
+from mc.ref.linalg import allclose as _close
 import sympy
 
 from mc.engine import Section, jdump
@@ -71,10 +72,10 @@ def term_case(case):
             return {"ok": False, "msg": "evolution circuit is wider than the term", "sig": "term:width"}
         U = padded_unitary(circ, n)
         exp = closed_form(c, ops, s, n)
-        if not np.allclose(U, exp, atol=ATOL):
+        if not _close(U, exp, atol=ATOL):
             ph = np.vdot(exp.reshape(-1), U.reshape(-1)) / (2 ** n)
             return {"ok": False, "msg": "circuit for %s*%s at t=%.4f is not exp(-i t c P)%s" % (c, ops, tt, " (differs by the global phase %.4f%+.4fi)" % (ph.real, ph.imag) if abs(abs(ph) - 1) < 1e-9 and
-                                                                                                np.allclose(U, ph * exp, atol=1e-8) else ""),
+                                                                                                _close(U, ph * exp, atol=1e-8) else ""),
                     "expected": str(np.round(exp, 4).tolist())[:400], "observed": str(np.round(U, 4).tolist())[:400], "sig": "term:matrix", "ops": k}
         sk = [(type(o).__name__, o.gate.name, tuple(o.qubit_indices)) for o in circ.operations]
         if skeleton is None:
@@ -103,7 +104,7 @@ def far_case(case):
             return {"ok": False, "msg": "evolution circuit is wider than the term", "sig": "far:width"}
         U = padded_unitary(circ, n)
         exp = np.cos(c * tt) * np.eye(2 ** n) - 1j * np.sin(c * tt) * P
-        if not np.allclose(U, exp, atol=ATOL):
+        if not _close(U, exp, atol=ATOL):
             return {"ok": False, "msg": "circuit for %s*%s at t=%.4f is not exp(-i t c P) on %d qubits" % (c, ops, tt, n), "observed": str([(o.gate.name, o.qubit_indices) for o in circ.operations])[:400],
                     "sig": "far:matrix", "ops": k}
     return {"ok": True, "nt": len(ops) >= 2, "ops": k, "out": "n%d" % n}
@@ -134,7 +135,7 @@ def special_case(case):
         return {"ok": False, "msg": "sum with complex coefficient %s accepted" % c, "sig": "sum:imag-accepted"}
     if kind == "tiny-imag":
         circ = time_evolution_for_term(PauliTerm({0: "Z"}, 1 + 1e-12j), 0.3)
-        ok = np.allclose(padded_unitary(circ, 1), closed_form(1.0, {0: "Z"}, 0.3, 1), atol=ATOL)
+        ok = _close(padded_unitary(circ, 1), closed_form(1.0, {0: "Z"}, 0.3, 1), atol=ATOL)
         return {"ok": bool(ok), "nt": False, "out": "accepted", "msg": "negligible imaginary part changes the circuit", "sig": "term:tiny-imag"}
     if kind == "method":
         try:
@@ -182,7 +183,7 @@ def sum_case(case):
             return {"ok": False, "msg": "evolution circuit wider than the Hamiltonian", "sig": "sum:width"}
         U = padded_unitary(circ, n)
         exp = ref_evolution(terms, tt, steps, n)
-        if not np.allclose(U, exp, atol=ATOL):
+        if not _close(U, exp, atol=ATOL):
             return {"ok": False, "msg": "U(time_evolution(H, %s, steps=%d)) is not the ordered product of exp(-i t/steps c_j P_j)" % (tt, steps), "sig": "sum:matrix",
                     "expected": str(np.round(exp, 4).tolist())[:300], "observed": str(np.round(U, 4).tolist())[:300], "ops": k}
     nc = sum(1 for _, o in terms if o)
@@ -227,7 +228,7 @@ def deriv_case(case):
             lhs = sum(f * (Uk.conj().T @ Om @ Uk) for f, Uk in zip(factors, Us))
             rhs = dU.conj().T @ Om @ U + U.conj().T @ Om @ dU
             k += 1
-            if not np.allclose(lhs, rhs, atol=1e-8):
+            if not _close(lhs, rhs, atol=1e-8):
                 return {"ok": False, "msg": "factor-weighted sum over the derivative circuits is not d/dt of the evolved observable %s (t=%s, steps=%d)" % (O, tt, steps),
                         "expected": str(np.round(rhs, 4).tolist())[:300], "observed": str(np.round(lhs, 4).tolist())[:300], "sig": "deriv:identity", "ops": k}
     return {"ok": True, "nt": len(live) >= 2 or steps >= 2, "ops": k, "out": "steps%d" % steps}
@@ -254,7 +255,7 @@ def symbolic_case(case):
         if circ.n_qubits < n:
             U = np.kron(U, np.eye(2 ** (n - circ.n_qubits)))
         exp = ref_evolution(terms, tt, case["steps"], n)
-        if not np.allclose(U, exp, atol=1e-8):
+        if not _close(U, exp, atol=1e-8):
             return {"ok": False, "msg": "symbolic-time circuit bound at t=%s differs from the closed form" % tt, "sig": "symbolic:matrix"}
     return {"ok": True, "nt": True, "ops": 2, "out": "symbolic"}
 
